@@ -1034,7 +1034,7 @@ pub fn run_handshake_mismatch(seed: u64, params: &Params, out: &mut ScnOut) {
     }
     // a raw peer with the wrong protocol version
     let raw = client_addr(900);
-    let ver = *rng.pick(&[0u8, 1, 2, 4, 255]);
+    let ver = foreign_version(&mut rng);
     let raw_nonce = rng.u32();
     w.known_addrs.push(raw);
     w.inject(raw, server_addr(), encode(&RFrame::Syn { version: ver, nonce: raw_nonce, max_receive_rate: 1_000_000, max_packet_size: 1000, max_receive_alloc: 1_000_000 }), 5 * MS);
@@ -1082,6 +1082,214 @@ pub fn run_handshake_mismatch(seed: u64, params: &Params, out: &mut ScnOut) {
     world_out(out, &mut w, true, mix(seed, ver as u64), sample);
 }
 
+// =============================================================================================
+// C05 / C06 at endpoint level: real Client and Server with unequal limits on an ideal network
+
+/// Client and server are configured independently (what each may send, what each can hold: the
+/// four values are negotiated in the handshake and each end must use the OTHER's allowance), the
+/// network neither loses nor reorders, both applications submit bursts larger than the allowances.
+/// Oracle: nothing is ever replaced by a data-less placeholder (C06), and each application sees
+/// exactly the other's submissions, in order, TimeSensitive ones possibly missing (C05).
+pub fn run_ep_ideal(seed: u64, params: &Params, out: &mut ScnOut) {
+    let mut rng = Rng::new(seed);
+    let verbose = params.flag("verbose");
+    let latency = *rng.pick(&[0u64, 5, 40]);
+    let mut w = World::new(seed, NetCfg::ideal(latency), verbose);
+    let allocs = [3_000usize, 20_000, 64_000, 300_000, 1_000_000];
+    let c_alloc = *rng.pick(&allocs);
+    let s_alloc = *rng.pick(&allocs);
+    // each may send packets up to the other's allowance, also far above its own
+    let c_pkt = (rng.log_range(100, s_alloc as u64) as usize).min(1_000_000);
+    let s_pkt = (rng.log_range(100, c_alloc as u64) as usize).min(1_000_000);
+    let rates = [100_000usize, 2_000_000, 10_000_000];
+    let ccfg = uflow::EndpointConfig { max_send_rate: *rng.pick(&rates), max_receive_rate: *rng.pick(&rates), max_packet_size: c_pkt, max_receive_alloc: c_alloc, keepalive: true, keepalive_interval_ms: 2000, active_timeout_ms: 60_000 };
+    let scfg_ep = uflow::EndpointConfig { max_send_rate: *rng.pick(&rates), max_receive_rate: *rng.pick(&rates), max_packet_size: s_pkt, max_receive_alloc: s_alloc, keepalive: true, keepalive_interval_ms: 2000, active_timeout_ms: 60_000 };
+    let cads = [(MS, MS), (10 * MS, 10 * MS), (50 * MS, 50 * MS), (100 * MS, 100 * MS)];
+    let scfg = uflow::server::Config { max_total_connections: 4, max_active_connections: 4, enable_handshake_errors: true, endpoint_config: scfg_ep };
+    w.bind_server(scfg, *rng.pick(&cads));
+    let addr = client_addr(0);
+    let ci = match w.connect_client(ccfg, addr, *rng.pick(&cads), None) {
+        Some(i) => i,
+        None => {
+            w.finish();
+            world_out(out, &mut w, false, 0, None);
+            return;
+        }
+    };
+    let dud0 = uflow::verif::dud_count();
+    let n_c = *rng.pick(&[0usize, 100, 400, 1500]);
+    let n_s = *rng.pick(&[0usize, 100, 400, 1500]);
+    let burst_c = *rng.pick(&[1u64, 10, 200]);
+    let burst_s = *rng.pick(&[1u64, 10, 200]);
+    let (mut sent_c, mut sent_s) = (0usize, 0usize);
+    let size = |rng: &mut Rng, max: usize| -> usize {
+        match rng.below(4) {
+            0 => rng.range(12, 64.min(max as u64).max(12)) as usize,
+            1 => rng.log_range(12, (max as u64).max(13)) as usize,
+            2 => max,
+            _ => rng.range(12, 3000.min(max as u64).max(12)) as usize,
+        }
+        .min(max)
+        .max(12.min(max))
+    };
+    let horizon = 900 * SEC;
+    let mut idle_since: Option<u64> = None;
+    let mut guard = 0u64;
+    while w.now_ns <= horizon && !w.panicked {
+        guard += 1;
+        if guard > 3_000_000 {
+            break;
+        }
+        let who = match w.step_next() {
+            Some(x) => x,
+            None => break,
+        };
+        let c_up = w.clients[ci].state == 1;
+        let s_up = w.server.conn_state.get(&addr) == Some(&1);
+        if w.clients[ci].state == 2 || w.server.conn_state.get(&addr) == Some(&2) {
+            break;
+        }
+        if c_up && s_up {
+            match who {
+                Some(_) if sent_c < n_c => {
+                    for _ in 0..rng.range(0, burst_c) {
+                        if sent_c < n_c {
+                            let l = size(&mut rng, c_pkt);
+                            w.client_send(ci, l, rng.below(64) as usize, rng.below(4) as u8);
+                            sent_c += 1;
+                        }
+                    }
+                }
+                None if sent_s < n_s => {
+                    for _ in 0..rng.range(0, burst_s) {
+                        if sent_s < n_s {
+                            let l = size(&mut rng, s_pkt);
+                            w.server_send(addr, l, rng.below(64) as usize, rng.below(4) as u8);
+                            sent_s += 1;
+                        }
+                    }
+                }
+                _ => {}
+            }
+        }
+        // done when everything was submitted and neither end has anything pending for 3 s
+        if c_up && s_up && sent_c >= n_c && sent_s >= n_s {
+            let c_pending = w.clients[ci].client.as_ref().and_then(|c| c.verif_half_connection()).map_or(false, |h| h.is_send_pending());
+            let s_pending = w.server.server.as_ref().and_then(|s| s.client(&addr)).map_or(false, |rc| rc.borrow().verif_half_connection().map_or(false, |h| h.is_send_pending()));
+            if c_pending || s_pending {
+                idle_since = None;
+            } else if idle_since.is_none() {
+                idle_since = Some(w.now_ns);
+            } else if w.now_ns - idle_since.unwrap() > 3 * SEC {
+                break;
+            }
+        }
+    }
+    let finished = idle_since.map_or(false, |t| w.now_ns - t > 3 * SEC);
+    let duds = uflow::verif::dud_count() - dud0;
+    if duds > 0 {
+        w.viol("C06", "dud-between-uflow-endpoints", format!("{} packets were replaced by data-less placeholders because a receive allocation was exceeded, between a real Client (may send {} B packets, can hold {} B) and Server (may send {}, can hold {}) on an ideal network", duds, c_pkt, c_alloc, s_pkt, s_alloc));
+    }
+    check_payloads(&mut w);
+    // C05: each application sees exactly the other's submissions, in order
+    let c_sends: Vec<(u64, usize, u8)> = w.clients[ci].events.iter().filter_map(|e| if let Ev::AppSend(h, l, m) = e.ev { Some((h, l, m)) } else { None }).collect();
+    let s_sends: Vec<(u64, usize, u8)> = w.server.events.iter().filter(|(a, _)| *a == addr).filter_map(|(_, e)| if let Ev::AppSend(h, l, m) = e.ev { Some((h, l, m)) } else { None }).collect();
+    let c_recv: Vec<(u64, usize)> = w.clients[ci].events.iter().filter_map(|e| if let Ev::Receive(h, l) = e.ev { Some((h, l)) } else { None }).collect();
+    let s_recv: Vec<(u64, usize)> = w.server.events.iter().filter(|(a, _)| *a == addr).filter_map(|(_, e)| if let Ev::Receive(h, l) = e.ev { Some((h, l)) } else { None }).collect();
+    for (dir, sends, recv) in [("client->server", &c_sends, &s_recv), ("server->client", &s_sends, &c_recv)] {
+        let mut ri = 0;
+        let mut missing: Vec<usize> = Vec::new();
+        for (k, (h, l, m)) in sends.iter().enumerate() {
+            if ri < recv.len() && recv[ri] == (*h, *l) {
+                ri += 1;
+            } else if *m != 0 {
+                missing.push(k);
+            }
+        }
+        w.c.add("ep_ideal_packets_checked", sends.len() as i128);
+        if ri < recv.len() {
+            w.viol("C05", "ep-order-on-ideal-network", format!("{}: delivery #{} ({} bytes) is not the next submission in order (ideal network, {} submitted, {} delivered)", dir, ri, recv[ri].1, sends.len(), recv.len()));
+        } else if finished && !missing.is_empty() {
+            w.viol("C05", "ep-not-delivered-on-ideal-network", format!("{}: {} of {} non-TimeSensitive packets never reached the application on an ideal network although both ends report nothing pending (first: submission #{} of {} bytes); client may send {} B packets / can hold {} B, server may send {} / can hold {}", dir, missing.len(), sends.len(), missing[0], sends[missing[0]].1, c_pkt, c_alloc, s_pkt, s_alloc));
+        }
+    }
+    if !finished && !w.panicked && w.violations.is_empty() {
+        w.c.inc("ep_ideal_unfinished");
+    }
+    let nontrivial = finished && (sent_c + sent_s) >= 100;
+    w.finish();
+    world_out(out, &mut w, nontrivial, mix(seed, (c_alloc ^ s_alloc << 20) as u64), None);
+}
+
+/// C19: applications that stop reading the event iterator early. Once connected, every step's
+/// iterator is read for 0..3 events only and dropped; payloads of unread Receive events belong to
+/// the library and must be released by it. Only the teardown / layout checks of the wrapper and
+/// crashes are judged here (the other monitors need the events the application skipped).
+pub fn run_ep_partial_read(seed: u64, params: &Params, out: &mut ScnOut) {
+    let mut rng = Rng::new(seed);
+    let verbose = params.flag("verbose");
+    let mut w = World::new(seed, NetCfg::ideal(*rng.pick(&[0u64, 5, 40])), verbose);
+    let scfg = uflow::server::Config { max_total_connections: 4, max_active_connections: 4, enable_handshake_errors: true, endpoint_config: ep_cfg(&mut rng) };
+    w.bind_server(scfg, cadence(&mut rng));
+    let n = rng.range(1, 2) as usize;
+    let mut idx = Vec::new();
+    for k in 0..n {
+        let mut c = ep_cfg(&mut rng);
+        c.max_packet_size = c.max_packet_size.min(100_000);
+        if let Some(i) = w.connect_client(c, client_addr(k), cadence(&mut rng), None) {
+            idx.push(i);
+        }
+    }
+    let horizon = rng.range(3, 12) * SEC;
+    let partial_p = *rng.pick(&[0.3, 0.7, 1.0]);
+    let mut guard = 0;
+    while w.now_ns <= horizon && !w.panicked {
+        guard += 1;
+        if guard > 500_000 {
+            break;
+        }
+        let all_up = idx.iter().all(|&i| w.clients[i].state >= 1) && idx.iter().all(|&i| w.server.conn_state.get(&w.clients[i].addr).map_or(false, |s| *s >= 1));
+        w.take_limit = if all_up && rng.chance(partial_p) { Some(rng.below(3) as usize) } else { None };
+        if w.take_limit.is_some() {
+            w.c.inc("partial_reads");
+        }
+        let who = match w.step_next() {
+            Some(x) => x,
+            None => break,
+        };
+        w.take_limit = None;
+        if all_up && rng.chance(0.6) {
+            for _ in 0..rng.range(1, 8) {
+                let l = rng.log_range(12, 5000) as usize;
+                match who {
+                    Some(i) => {
+                        w.client_send(i, l.min(2000), rng.below(8) as usize, rng.range(1, 3) as u8);
+                    }
+                    None => {
+                        let a = w.clients[*rng.pick(&idx)].addr;
+                        w.server_send(a, l.min(2000), rng.below(8) as usize, rng.range(1, 3) as u8);
+                    }
+                }
+            }
+        }
+    }
+    let partial = w.c.get("partial_reads");
+    w.finish();
+    w.violations.retain(|v| v.prop == "C03" || v.prop == "C19");
+    world_out(out, &mut w, partial >= 10, mix(seed, partial as u64), None);
+}
+
+/// Any protocol version byte but ours: the eight one-bit neighbours of 3 (2, 1, 7, 11, 19, 35, 67,
+/// 131) as often as all other values together.
+fn foreign_version(rng: &mut Rng) -> u8 {
+    if rng.chance(0.5) {
+        3 ^ (1u8 << rng.below(8))
+    } else {
+        let v = rng.below(255) as u8;
+        if v >= 3 { v + 1 } else { v }
+    }
+}
+
 pub fn run_family(family: &str, scn_seed: u64, _idx: u64, params: &Params, out: &mut ScnOut) -> bool {
     // C19 at endpoint level: whatever was allocated inside calls into uflow (Client, Server,
     // RemoteClient handles, events, payloads, datagrams) is gone again once every endpoint and the
@@ -1114,6 +1322,8 @@ fn run_family_inner(family: &str, scn_seed: u64, params: &Params, out: &mut ScnO
         "limits" => run_limits(scn_seed, params, out),
         "amplify" => run_amplify(scn_seed, params, out),
         "ep-hostile" => run_ep_hostile(scn_seed, params, out),
+        "ep-ideal" => run_ep_ideal(scn_seed, params, out),
+        "ep-partial-read" => run_ep_partial_read(scn_seed, params, out),
         _ => return false,
     }
     true
@@ -1848,6 +2058,60 @@ fn check_admissions(w: &mut World, max_total: usize) {
     if let Some(m) = worst {
         w.viol("C17", "admitted-beyond-max-total", m);
     }
+    // the converse: a ServerFull refusal needs a reason. An upper bound of what the server can
+    // still be holding at that instant, from the wire and the events alone: connections reported
+    // and not ended (or ended by the peer's Disconnect less than 20 s ago: the documented linger),
+    // handshakes admitted less than 22 s ago (10 resends 2 s apart). Timers that fire late keep
+    // entries beyond that.
+    let max_active = w.server.max_active;
+    let slack = 150 * MS;
+    let mut first_unjustified: Option<String> = None;
+    let refusals: Vec<(u64, SocketAddr)> = w.wire.iter().filter(|r| r.src == srv && !r.injected && matches!(r.frame, Some(RFrame::Error { error: 2, .. }))).map(|r| (r.t_ns, r.dst)).collect();
+    // how each established interval ended
+    let ended_by_peer_disconnect = |a: &SocketAddr, e: u64| -> bool {
+        let disc = w.server.events.iter().any(|(x, ev)| x == a && ev.t_ns == e && ev.ev == Ev::Disconnect);
+        let own = w.server.events.iter().any(|(x, ev)| x == a && ev.t_ns <= e && matches!(ev.ev, Ev::AppDisconnect | Ev::AppDisconnectNow));
+        disc && !own
+    };
+    for (t, x) in refusals {
+        w.c.inc("c17_refusals_checked");
+        let mut held: Vec<SocketAddr> = Vec::new();
+        let mut active = 0usize;
+        for (a, c, e) in intervals.iter() {
+            if a == &x {
+                continue;
+            }
+            let linger = if *e != u64::MAX && ended_by_peer_disconnect(a, *e) { 20 * SEC } else { 0 };
+            if *c <= t + slack && (*e == u64::MAX || e.saturating_add(linger + SEC) >= t) {
+                if !held.contains(a) {
+                    held.push(*a);
+                }
+            }
+            if *c <= t + slack && (*e == u64::MAX || *e + slack >= t) {
+                active += 1;
+            }
+        }
+        for (y, ly) in synacks.iter() {
+            if y == &x || held.contains(y) {
+                continue;
+            }
+            let mut prev: Option<(u32, u32)> = None;
+            for &(ts, n, na) in ly.iter() {
+                let first_of_pair = prev != Some((n, na));
+                prev = Some((n, na));
+                if first_of_pair && ts <= t + slack && t <= ts + 23 * SEC {
+                    held.push(*y);
+                    break;
+                }
+            }
+        }
+        if held.len() < max_total && active < max_active && first_unjustified.is_none() {
+            first_unjustified = Some(format!("at t={} ms the server refused {} with ServerFull although at most {} connections can still be held (established or ended by the peer's Disconnect < 20 s ago or admitted < 22 s ago: {:?}) of max_total_connections = {}, and at most {} are established of max_active_connections = {}", t / MS, x, held.len(), held, max_total, active, max_active));
+        }
+    }
+    if let Some(m) = first_unjustified {
+        w.viol("C17", "refused-although-capacity-free", m);
+    }
 }
 
 pub fn run_limits(seed: u64, params: &Params, out: &mut ScnOut) {
@@ -2084,13 +2348,17 @@ pub fn run_amplify(seed: u64, params: &Params, out: &mut ScnOut) {
     let verbose = params.flag("verbose");
     let mut w = World::new(seed, NetCfg::ideal(rng.range(0, 20)), verbose);
     let full = rng.chance(0.3);
+    let long_run = Rng::new(seed ^ 0x10e6).chance(0.2);
+    let long_timeout: u64 = if long_run { *Rng::new(seed ^ 0x10e7).pick(&[120_000u64, 600_000, 3_600_000]) } else { 20_000 };
     let scfg = uflow::server::Config {
         max_total_connections: if full { rng.range(1, 3) as usize } else { 4096 },
         max_active_connections: if full { 1 } else { 32 },
         enable_handshake_errors: rng.chance(0.5),
-        endpoint_config: uflow::EndpointConfig { max_packet_size: 100_000, max_receive_alloc: 1_000_000, ..Default::default() },
+        // also servers configured to be patient with established connections: the patience must
+        // not extend to addresses that have proven nothing
+        endpoint_config: uflow::EndpointConfig { max_packet_size: 100_000, max_receive_alloc: 1_000_000, active_timeout_ms: long_timeout, ..Default::default() },
     };
-    w.bind_server(scfg, (10 * MS, 10 * MS));
+    w.bind_server(scfg, if long_run { (50 * MS, 50 * MS) } else { (10 * MS, 10 * MS) });
     let srv = w.server.addr;
     // honest clients fill a small server
     if full {
@@ -2119,7 +2387,7 @@ pub fn run_amplify(seed: u64, params: &Params, out: &mut ScnOut) {
                 }
                 3 => {
                     only_undersized[a] = false;
-                    (encode(&RFrame::Syn { version: *rng.pick(&[0u8, 1, 2, 4, 200]), nonce: rng.u32(), max_receive_rate: 1, max_packet_size: 1, max_receive_alloc: 1 }), "wrong-version-syn")
+                    (encode(&RFrame::Syn { version: foreign_version(&mut rng), nonce: rng.u32(), max_receive_rate: 1, max_packet_size: 1, max_receive_alloc: 1 }), "wrong-version-syn")
                 }
                 4 => {
                     only_undersized[a] = false;
@@ -2143,6 +2411,12 @@ pub fn run_amplify(seed: u64, params: &Params, out: &mut ScnOut) {
                         *b = rng.u64() as u8;
                     }
                     (seal(body), "undersized-syn")
+                }
+                7 if rng.chance(0.5) => {
+                    only_undersized[a] = false;
+                    // the shortest datagrams there are: nothing, zeros, ones, the CRC of nothing
+                    let len = rng.below(9) as usize;
+                    (match rng.below(3) { 0 => vec![0u8; len], 1 => vec![0xFFu8; len], _ => seal(vec![0u8; len.saturating_sub(4)]) }, "stray-frame")
                 }
                 7 => {
                     only_undersized[a] = false;
@@ -2206,7 +2480,7 @@ pub fn run_amplify(seed: u64, params: &Params, out: &mut ScnOut) {
         w.known_addrs.push(addr_of(a));
     }
     let mut pi = 0;
-    let horizon = 55 * SEC;
+    let horizon = if long_run { 600 * SEC } else { 55 * SEC };
     let greet = *rng.pick(&[0usize, 2, 8]);
     let mut greeted = 0usize;
     while w.now_ns <= horizon && !w.panicked {
